@@ -644,6 +644,9 @@ class ShadowOps:
         return []
 
     def a_add_link(self, gid, kw, o):
+        # as the database would: no row when one of the two end nodes does not exist in this graph
+        if self.s.node(gid, kw.get('node_a')) is None or self.s.node(gid, kw.get('node_b')) is None:
+            return []
         return [_row(rel={})]
 
     def a_find_matching_nodes(self, gid, kw, o):
